@@ -249,18 +249,41 @@ func zzC15_pathlimit() {
 	for i := range seg {
 		seg[i] = 'x'
 	}
-	p := "/a/" + string(seg) + "/b"
+	// the long segment is the first, an inner or the last one
+	p := []string{"/" + string(seg) + "/a/b", "/a/" + string(seg) + "/b", "/a/b/" + string(seg)}[symChoose("position", 3)]
+	location := symChoose("location-path", 2) == 1
 	buf := make([]byte, 600)
 	opts := make(Options, 0, 8)
-	got, _, err := opts.SetPath(buf, p)
+	obuf := make([]byte, 64)
+	opts, _, _ = opts.SetPath(obuf, "/old/path")
+	opts, _, _ = opts.SetLocationPath(obuf[32:], "/old/loc")
+	var got Options
+	var err error
+	if location {
+		got, _, err = opts.SetLocationPath(buf, p)
+	} else {
+		got, _, err = opts.SetPath(buf, p)
+	}
 	if k == 255 {
 		symCover("255")
 		symAssert(err == nil, "a 255-byte segment is accepted")
-		back, perr := got.Path()
+		var back string
+		var perr error
+		if location {
+			back, perr = got.LocationPath()
+		} else {
+			back, perr = got.Path()
+		}
 		symAssert(perr == nil && back == p, "and round-trips")
 	} else {
 		symCover("256")
 		symAssert(errors.Is(err, ErrInvalidValueLength), "a 256-byte segment is refused")
+		a, aerr := got.Path()
+		b, berr := got.LocationPath()
+		symAssert(aerr == nil && a == "/old/path" && berr == nil && b == "/old/loc", "a refused path leaves the option list as it was")
+		for _, o := range got {
+			symAssert(len(o.Value) <= 255, "no path segment longer than 255 bytes is ever stored")
+		}
 	}
 }
 
